@@ -194,7 +194,7 @@ struct SIMDVector<int32_t,simd_abi::avx512> {
 
     FASTOR_INLINE int32_t minimum() {
         int32_lane_t *vals = (int32_lane_t*)&value;
-        int32_t quan = 0;
+        int32_t quan = vals[0]; // start from a lane, not from 0 (wrong for all-positive / all-negative lanes)
         for (FASTOR_INDEX i=0; i<Size; ++i)
             if (vals[i]<quan)
                 quan = vals[i];
@@ -202,7 +202,7 @@ struct SIMDVector<int32_t,simd_abi::avx512> {
     }
     FASTOR_INLINE int32_t maximum() {
         int32_lane_t *vals = (int32_lane_t*)&value;
-        int32_t quan = 0;
+        int32_t quan = vals[0]; // start from a lane, not from 0 (wrong for all-positive / all-negative lanes)
         for (FASTOR_INDEX i=0; i<Size; ++i)
             if (vals[i]>quan)
                 quan = vals[i];
@@ -536,7 +536,7 @@ struct SIMDVector<int32_t,simd_abi::avx> {
 
     FASTOR_INLINE int32_t minimum() {
         int32_lane_t *vals = (int32_lane_t*)&value;
-        int32_t quan = 0;
+        int32_t quan = vals[0]; // start from a lane, not from 0 (wrong for all-positive / all-negative lanes)
         for (FASTOR_INDEX i=0; i<Size; ++i)
             if (vals[i]<quan)
                 quan = vals[i];
@@ -544,7 +544,7 @@ struct SIMDVector<int32_t,simd_abi::avx> {
     }
     FASTOR_INLINE int32_t maximum() {
         int32_lane_t *vals = (int32_lane_t*)&value;
-        int32_t quan = 0;
+        int32_t quan = vals[0]; // start from a lane, not from 0 (wrong for all-positive / all-negative lanes)
         for (FASTOR_INDEX i=0; i<Size; ++i)
             if (vals[i]>quan)
                 quan = vals[i];
@@ -857,7 +857,7 @@ struct SIMDVector<int32_t,simd_abi::sse> {
 
     FASTOR_INLINE int32_t minimum() {
         int32_lane_t *vals = (int32_lane_t*)&value;
-        int32_t quan = 0;
+        int32_t quan = vals[0]; // start from a lane, not from 0 (wrong for all-positive / all-negative lanes)
         for (FASTOR_INDEX i=0; i<Size; ++i)
             if (vals[i]<quan)
                 quan = vals[i];
@@ -865,7 +865,7 @@ struct SIMDVector<int32_t,simd_abi::sse> {
     }
     FASTOR_INLINE int32_t maximum() {
         int32_lane_t *vals = (int32_lane_t*)&value;
-        int32_t quan = 0;
+        int32_t quan = vals[0]; // start from a lane, not from 0 (wrong for all-positive / all-negative lanes)
         for (FASTOR_INDEX i=0; i<Size; ++i)
             if (vals[i]>quan)
                 quan = vals[i];
